@@ -439,13 +439,15 @@ class Func:
             out.append('B%d@%d' % (b, ln))
         return out
 
-    def guarded(self, bid, idx, fact_edge, fact_elem=None):
+    def guarded(self, bid, idx, fact_edge, fact_elem=None, start=None, edge_ok=None):
         """True iff every path from entry to element (bid, idx) crosses an edge
         on which fact_edge(label) holds, or passes an element e for which
         fact_elem(expr) holds before the site.  Returns (ok, witness)."""
         succ = self.succs()
-        seen = {self.entry: None}
-        work = [self.entry]
+        st = self.entry if start is None else start
+        seen = {st: None}
+        work = [st]
+        first = True
         while work:
             b = work.pop()
             elems = self.blocks[b]['elems']
@@ -465,9 +467,39 @@ class Func:
                     continue
                 if l is not None and fact_edge(l):
                     continue
+                if edge_ok is not None and not edge_ok(b, t, l):
+                    continue
                 seen[t] = b
                 work.append(t)
         return True, []
+
+    def loop_body(self, h, s0):
+        """Blocks of the natural loop with header h entered through s0."""
+        fwd = self.reach_forward([s0], block_stop=lambda b: b == h)
+        preds = self.preds()
+        tails = [p for p, l in preds.get(h, ()) if p in fwd]
+        body = {h}
+        work = list(tails)
+        while work:
+            b = work.pop()
+            if b in body:
+                continue
+            body.add(b)
+            for p, l in preds.get(b, ()):
+                if p not in body:
+                    work.append(p)
+        return body
+
+    def loops(self):
+        """[(header block, body entry block)] for while/for/do loops."""
+        out = []
+        for b in self.blocks.values():
+            t = b.get('term')
+            if t and t[0] in ('WhileStmt', 'ForStmt', 'DoStmt') and len(b['succ']) == 2:
+                s0 = b['succ'][0]
+                if s0 is not None and s0 >= 0:
+                    out.append((b['id'], s0))
+        return out
 
     def reaching_defs(self, bid, idx, var):
         """Definitions (assign / inc-dec / decl nodes) of local `var` that may
